@@ -1191,3 +1191,364 @@ Proof.
   - (* post_stop Ok *)
     apply (tinv_finish links wx i a); [apply HX; [reflexivity|reflexivity]|exact Egx|exact Harm|reflexivity|reflexivity].
 Qed.
+
+(* ------------------------------------------------------------------ *)
+(* requests made through a cell                                         *)
+
+Lemma tinv_emit_plain links x w e :
+  TInv links x w -> is_sup_enter e = false ->
+  (forall j, p_sok j e = false /\ p_eps j e = false /\ p_over j e = false /\ p_end j e = false
+             /\ p_pso j e = false) ->
+  (forall s m, e <> TEnter s (Handle m)) ->
+  TInv links x (emit w e).
+Proof.
+  intros H Hp Hn Hh. apply tinv_emit with (x := x); auto.
+  - intros j a [A|A]; destruct (Hn j) as (E1 & E2 & _); congruence.
+  - intros j a [A|A]; destruct (Hn j) as (_ & _ & E3 & E4 & _); congruence.
+  - intros j a s A. destruct (Hn j) as (_ & _ & _ & _ & E5). congruence.
+  - intros s m E. exfalso. apply (Hh s m E).
+Qed.
+
+Ltac plain_ev := first [reflexivity | intros; repeat split; reflexivity | intros; discriminate].
+
+Lemma tinv_req_send links w i m : TInv links None w -> TInv links None (req_send w i m).
+Proof.
+  intros H. unfold req_send. destruct (is_created w i); [|exact H].
+  unfold do_send. destruct (get w i) as [a|] eqn:Eg; [|exact H].
+  destruct (can_send a); apply tinv_emit_plain; try plain_ev; [|exact H].
+  eapply tinv_upd_plain with (a := a); eauto.
+  - clear. uinv_tac.
+  - unfold blocked. rewrite get_upd_same, Eg. simpl. auto.
+Qed.
+
+Lemma tinv_req_kill links w i : TInv links None w -> TInv links None (req_kill w i).
+Proof.
+  intros H. unfold req_kill. destruct (is_created w i); [|exact H].
+  apply tinv_do_kill. apply tinv_emit_plain; try plain_ev. exact H.
+Qed.
+
+Lemma tinv_req_stop links w i r : TInv links None w -> TInv links None (req_stop w i r).
+Proof.
+  intros H. unfold req_stop. destruct (is_created w i); [|exact H].
+  assert (H1 : TInv links None (emit w (TStopReq i r))) by (apply tinv_emit_plain; try plain_ev; exact H).
+  unfold do_stop. destruct (get (emit w (TStopReq i r)) i) as [a|] eqn:Eg; [|exact H1].
+  destruct (_ || _); [exact H1|].
+  eapply tinv_upd_plain with (a := a); eauto.
+  - clear. uinv_tac.
+  - unfold blocked. rewrite get_upd_same, Eg. simpl. auto.
+Qed.
+
+Lemma drain_upd_more a :
+  a_supq (drain_upd a) = a_supq a /\ a_cfg (drain_upd a) = a_cfg a /\ a_kids (drain_upd a) = a_kids a
+  /\ a_notify (drain_upd a) = a_notify a /\ a_sup (drain_upd a) = a_sup a
+  /\ (5 <= a_status (drain_upd a) -> 5 <= a_status a).
+Proof.
+  unfold drain_upd. destruct (Nat.ltb_spec (a_status a) 5); simpl;
+    (destruct (a_marker a); simpl; [|destruct (a_ports a); simpl]); repeat split; auto; lia.
+Qed.
+
+Lemma tinv_req_drain links w i : TInv links None w -> TInv links None (req_drain w i).
+Proof.
+  intros H. unfold req_drain. destruct (is_created w i); [|exact H].
+  assert (H1 : TInv links None (emit w (TDrainReq i))) by (apply tinv_emit_plain; try plain_ev; exact H).
+  unfold do_drain. destruct (get (emit w (TDrainReq i)) i) as [a|] eqn:Eg; [|exact H1].
+  destruct (negb (created a)); [exact H1|].
+  change (TInv links None (upd (emit w (TDrainReq i)) i drain_upd)).
+  destruct (drain_upd_fields a) as (E1 & E2 & E3 & E4 & E5 & E6 & E7).
+  destruct (drain_upd_more a) as (D1 & D2 & D3 & D4 & D5 & D6).
+  eapply tinv_upd_plain with (a := a); eauto.
+  - intros [u1 u2 u3 u4 u5 u6 u7 u8 u9 u10].
+    constructor; rewrite ?E1, ?E2, ?E3, ?E4, ?E7, ?D3, ?D4; auto.
+  - unfold blocked. rewrite get_upd_same, Eg. simpl. rewrite E1, E3. auto.
+  - unfold linkedp. rewrite D4, D2, E1. auto.
+Qed.
+
+(* ------------------------------------------------------------------ *)
+(* one segment of a poll                                                *)
+
+Lemma qf_refl a : quiet_fields a a.
+Proof. unfold quiet_fields. auto 10. Qed.
+
+Lemma tinv_seg links w i : TInv links None w -> TInv links None (fst (seg w i)).
+Proof.
+  intros H. unfold seg. destruct (get w i) as [a|] eqn:Eg; [|exact H].
+  pose proof (t_act _ _ _ H i a Eg) as Ua.
+  destruct (a_pc a) as [| | |c rest f parked| |] eqn:Epc; try exact H.
+  - (* NotStarted *)
+    assert (Harm : a_armed a = true).
+    { destruct (a_armed a) eqn:E; auto. apply (U8 _ _ _ _ Ua) in E. congruence. }
+    assert (Hn0 : a_notify a = false) by (apply (U10 _ _ _ _ Ua); rewrite Epc; reflexivity).
+    destruct (Nat.eqb (a_status a) 0) eqn:Est; cbn [negb fst].
+    2: { apply (tinv_start_failed links w i a); auto. apply tinv_retag. exact H. }
+    apply Nat.eqb_eq in Est.
+    set (w0 := upd w i (fun a => upd_status a 1)).
+    assert (H0 : TInv links None w0).
+    { eapply tinv_upd_plain with (a := a); eauto.
+      - intros Ux. apply UInv_status; [lia|exact Ux].
+      - unfold blocked. rewrite get_upd_same, Eg. simpl. auto. }
+    assert (Eg0 : get w0 i = Some (upd_status a 1)) by (unfold w0; rewrite get_upd_same, Eg; reflexivity).
+    (* pre_start starts (or the pending signal wins) *)
+    assert (Hstart : forall w1 a1, TInv links None w1 -> get w1 i = Some a1 ->
+               a_pc a1 = NotStarted -> a_armed a1 = true -> a_notify a1 = false -> a_status a1 < 5 ->
+               (c_local (a_cfg a1) = true -> forall s, c_link (a_cfg a1) = Some s -> a_sup a1 = Some s) ->
+               TInv links None (start_cb w1 i PreStart)).
+    { intros w1 a1 H1 Eg1 Epc1 Harm1 Hn1 Hst1 Hl1. unfold start_cb. rewrite Eg1.
+      destruct (a_sig a1) eqn:Esig.
+      - unfold consume_sig.
+        apply (tinv_sig_exit links w1 i a1 (fun z => z) (Some PreStart) H1 Eg1 Harm1 (qf_refl a1) eq_refl).
+        intros _. exact Hn1.
+      - rewrite <- (upd_id w1 i).
+        apply (tinv_enter links w1 i a1 (fun z => z) PreStart H1 Eg1 Esig Harm1); auto.
+        + rewrite Epc1. exact I.
+        + apply qf_refl.
+        + intros L. lia. }
+    destruct (if c_local (a_cfg a) then c_link (a_cfg a) else None) as [s|] eqn:El.
+    + assert (Hloc : c_local (a_cfg a) = true /\ c_link (a_cfg a) = Some s)
+        by (destruct (c_local (a_cfg a)); [auto|discriminate]).
+      destruct Hloc as [Hloc El'].
+      fold w0. destruct (try_link w0 i s) as [w1 ok] eqn:Etl. destruct ok; cbn [fst].
+      * assert (H1 : TInv links None w1).
+        { apply (tinv_try_link links false w0 i (upd_status a 1) s w1 H0 Eg0); auto. }
+        assert (E1 : exists a1, get w1 i = Some a1 /\ core_eq a1 (upd_status a 1)
+                                /\ a_sup a1 = Some s /\ a_notify a1 = false /\ a_cfg a1 = a_cfg a
+                                /\ a_status a1 = 1).
+        { unfold try_link in Etl. rewrite Eg0 in Etl.
+          destruct (get w0 s) as [asup|] eqn:Egs; [|discriminate].
+          destruct (_ || _); [discriminate|]. destruct (a_kids asup) as [ks|]; [|discriminate].
+          injection Etl as <-. rewrite get_upd_same.
+          destruct (Nat.eq_dec s i) as [->|Hne].
+          - rewrite get_upd_same, Eg0. simpl. eexists; split; [reflexivity|].
+            unfold core_eq; simpl. rewrite Est. repeat split; auto.
+          - rewrite get_upd_other, Eg0 by assumption. simpl. eexists; split; [reflexivity|].
+            unfold core_eq; simpl. rewrite Est. repeat split; auto. }
+        destruct E1 as (a1 & Eg1 & (C1 & _ & _ & _ & _ & _ & C7 & _) & S1 & N1 & Cf1 & St1).
+        simpl in C1, C7.
+        apply (Hstart w1 a1 H1 Eg1); try congruence; try lia; try (intros _ s0 E0; congruence).
+      * assert (E1 : w1 = w0) by (rewrite <- (try_link_false w0 i s); rewrite Etl; reflexivity).
+        rewrite E1. apply (tinv_start_failed links w0 i (upd_status a 1)); auto.
+        apply tinv_retag. exact H0.
+    + cbn [fst]. apply (Hstart w0 (upd_status a 1) H0 Eg0); simpl; auto; try lia.
+      intros Hloc s0 E0. rewrite Hloc in El. congruence.
+  - (* Spawned *)
+    assert (Harm : a_armed a = true).
+    { destruct (a_armed a) eqn:E; auto. apply (U8 _ _ _ _ Ua) in E. congruence. }
+    cbn [fst]. unfold start_cb. rewrite Eg. destruct (a_sig a) eqn:Esig.
+    + unfold consume_sig.
+      apply (tinv_sig_exit links w i a (fun z => z) (Some PostStart) H Eg Harm (qf_refl a) eq_refl).
+      intros; discriminate.
+    + rewrite <- (upd_id w i).
+      apply (tinv_enter links w i a (fun z => z) PostStart H Eg Esig Harm); auto.
+      * rewrite Epc. exact I.
+      * apply qf_refl.
+      * intros L. destruct (U1 _ _ _ _ Ua L) as [A|[(r & f0 & p0 & A)|A]]; congruence.
+      * intros; discriminate.
+  - (* inside a callback *)
+    assert (Harm : a_armed a = true).
+    { destruct (a_armed a) eqn:E; auto. apply (U8 _ _ _ _ Ua) in E. congruence. }
+    assert (Hadv : forall x w0 r' p', TInv links x w0 -> get w0 i = Some a ->
+                   TInv links x (upd w0 i (fun a0 => upd_pc a0 (InCb c r' f p')))).
+    { intros x w0 r' p' H0 Eg0. eapply tinv_upd_plain with (a := a); eauto.
+      - intros Ux. apply UInv_pc; auto; try discriminate; try (rewrite Epc; discriminate).
+        + intros L. destruct (U1 _ _ _ _ Ux L) as [A|[(r & f0 & p0 & A)|A]]; [congruence| |auto].
+          rewrite Epc in A. injection A as -> _ _ _. eauto 8.
+        + intros P. apply (U5 _ _ _ _ Ux); rewrite Epc; [exact P|discriminate].
+        + intros P. apply (U10 _ _ _ _ Ux). rewrite Epc. exact P.
+      - unfold blocked. rewrite get_upd_same, Eg0. simpl. rewrite Epc.
+        intros [A|[A|[(r & f0 & p0 & A)|A]]]; [auto|discriminate A| |auto]. injection A as -> _ _ _. eauto 8.
+      - unfold linkedp. simpl. rewrite Epc. intros [N|[L (r & f0 & p0 & E)]]; [left; exact N|right].
+        split; [exact L|]. injection E as -> _ _ _. eauto. }
+    assert (Hadv_e : forall e r' p', is_sup_enter e = false ->
+                     (forall j, p_sok j e = false /\ p_eps j e = false /\ p_over j e = false
+                                /\ p_end j e = false /\ p_pso j e = false) ->
+                     (forall s m, e <> TEnter s (Handle m)) ->
+                     TInv links None (upd (emit w e) i (fun a0 => upd_pc a0 (InCb c r' f p')))).
+    { intros e r' p' E1 E2 E3. apply Hadv; [|exact Eg]. apply tinv_emit_plain; auto. }
+    destruct rest as [|e r]; cbn [fst].
+    + eapply tinv_after_cb; eauto.
+    + destruct e as [g| |b m|b r0|b|b]; cbn [do_eff].
+      * destruct (is_open w g); cbn [fst].
+        -- destruct parked; [apply Hadv_e; plain_ev|apply Hadv; auto].
+        -- destruct parked; cbn [fst]; [exact H|apply Hadv_e; plain_ev].
+      * apply Hadv_e; plain_ev.
+      * apply tinv_req_send. apply Hadv; auto.
+      * apply tinv_req_stop. apply Hadv; auto.
+      * apply tinv_req_kill. apply Hadv; auto.
+      * apply tinv_req_drain. apply Hadv; auto.
+  - (* Idle: the biased pick *)
+    assert (Harm : a_armed a = true).
+    { destruct (a_armed a) eqn:E; auto. apply (U8 _ _ _ _ Ua) in E. congruence. }
+    assert (Hst : a_status a < 5).
+    { destruct (Nat.ltb_spec (a_status a) 5) as [L|L]; auto.
+      destruct (U1 _ _ _ _ Ua L) as [A|[(r & f0 & p0 & A)|A]]; congruence. }
+    destruct (a_sig a) eqn:Esig; cbn [fst].
+    + unfold consume_sig.
+      apply (tinv_sig_exit links w i a (fun z => z) None H Eg Harm (qf_refl a) eq_refl). intros; discriminate.
+    + assert (Hgo : forall F c0, quiet_fields a (F a) -> start_from Idle c0 ->
+                (5 <= a_status (F a) -> c0 = PostStop) ->
+                (match c0 with
+                 | Sup e => a_supq a = e :: a_supq (F a)
+                 | Handle _ => a_supq a = [] /\ a_supq (F a) = []
+                 | _ => a_supq (F a) = a_supq a end) -> c0 <> PreStart ->
+                TInv links None (start_cb (upd w i F) i c0)).
+      { intros F c0 Q Hf Hs5 Hq Hc. unfold start_cb. rewrite get_upd_same, Eg. cbn [option_map].
+        destruct Q as (Q1 & Q2 & Q3 & Q4 & Q5 & Qr). rewrite Q5, Esig.
+        apply (tinv_enter links w i a F c0 H Eg Esig Harm); auto.
+        - rewrite Epc. exact Hf.
+        - unfold quiet_fields. auto 10.
+        - intros E. congruence. }
+      destruct (a_stop a) as [r0|] eqn:Estop; cbn [fst].
+      * unfold graceful_exit. rewrite upd_upd. apply Hgo; simpl; auto; try discriminate.
+        unfold quiet_fields. simpl. auto 10.
+      * destruct (a_supq a) as [|e t] eqn:Esup; cbn [fst].
+        -- destruct (a_msgq a) as [|[m|] t] eqn:Emsg; cbn [fst].
+           ++ exact H.
+           ++ apply Hgo; simpl; auto; try discriminate; try lia.
+              unfold quiet_fields. simpl. auto 10.
+           ++ unfold graceful_exit. rewrite upd_upd. apply Hgo; simpl; auto; try discriminate.
+              unfold quiet_fields. simpl. auto 10.
+        -- apply Hgo; simpl; auto; try discriminate; try lia.
+           unfold quiet_fields. simpl. auto 10.
+Qed.
+
+(* ------------------------------------------------------------------ *)
+(* resuming a parked callback, aborting a task, a label, a schedule     *)
+
+Lemma tinv_resume links w i : TInv links None w -> TInv links None (fst (resume w i)).
+Proof.
+  intros H. unfold resume. destruct (get w i) as [a|] eqn:Eg; [|exact H].
+  pose proof (t_act _ _ _ H i a Eg) as Ua.
+  destruct (a_pc a) as [| | |c rest f p| |] eqn:Epc; try exact H.
+  destruct (a_sig a) eqn:Esig; [|exact H]. cbn [fst].
+  assert (Harm : a_armed a = true).
+  { destruct (a_armed a) eqn:E; auto. apply (U8 _ _ _ _ Ua) in E. congruence. }
+  unfold consume_sig.
+  set (w1 := upd w i (fun a0 => upd_sig a0 false true)).
+  assert (H1 : TInv links (Some i) w1).
+  { eapply tinv_upd with (x := None) (a := a); [exact H|exact Eg|reflexivity|reflexivity| |right; left; reflexivity| |].
+    - intros [u1 u2 u3 u4 u5 u6 u7 u8 u9 u10]. constructor; simpl; auto; try (intros; discriminate).
+    - unfold blocked. rewrite get_upd_same, Eg. simpl. auto.
+    - intros s El Ci.
+      assert (EK : forall s0, K w1 s0 = K w s0).
+      { intros s0. apply (K_pw_same _ w _ s0 (pw_upd w i _)). intros j b _. cbv beta.
+        destruct (Nat.eqb i j); reflexivity. }
+      eapply cinv_keep;
+        [exact Ci|reflexivity|intros y; rewrite EK; auto| |simpl; auto| |intros _ _; left; reflexivity
+        |simpl; auto|simpl; intros D; left; exact D].
+      + apply blocked_upd with (a := a); [exact Eg|right; left; reflexivity|].
+        unfold blocked. rewrite get_upd_same, Eg. simpl. auto.
+      + unfold linkedp. simpl. auto. }
+  eapply tinv_killed_exit with (a := upd_sig a false true).
+  - apply tinv_emit with (x := Some i); auto; try (intros; discriminate).
+    + intros j b [A|A]; discriminate.
+    + intros j b [A|A] Eb; [|discriminate]. right.
+      simpl in A. destruct c; try discriminate; apply Nat.eqb_eq in A; congruence.
+  - rewrite get_emit. unfold w1. rewrite get_upd_same, Eg. reflexivity.
+  - exact Harm.
+  - intros E. injection E as ->. simpl. apply (U10 _ _ _ _ Ua). rewrite Epc. reflexivity.
+Qed.
+
+Lemma tinv_abort links w i : TInv links None w -> TInv links None (abort w i).
+Proof.
+  intros H. unfold abort. destruct (get w i) as [a|] eqn:Eg; [|exact H].
+  pose proof (t_act _ _ _ H i a Eg) as Ua.
+  set (ev := if a_notify a then Some (STerminated i false (Some R_CANCELLED)) else None).
+  assert (Hev : a_notify a = true -> exists e, ev = Some e /\ is_terminal e = true /\ about e = i).
+  { intros N. unfold ev. rewrite N. eauto. }
+  assert (HA : TInv links (Some i) (emit w (TAborted i))).
+  { apply tinv_emit with (x := None); auto; try (intros; discriminate).
+    - intros j b [A|A]; discriminate.
+    - intros j b [A|A] Eb; [discriminate|]. right. simpl in A. apply Nat.eqb_eq in A. congruence. }
+  assert (Hquiet : a_pc a <> Done -> TInv links None (cleanup (emit w (TAborted i)) i ev)).
+  { intros Hnd. eapply tinv_cleanup with (a := a); eauto.
+    destruct (a_armed a) eqn:E; auto. apply (U8 _ _ _ _ Ua) in E. congruence. }
+  destruct (a_pc a) as [| | |c rest f p| |] eqn:Epc; try exact H;
+    try (apply Hquiet; discriminate).
+  destruct p; [|exact H].
+  eapply tinv_cleanup with (a := a); eauto.
+  - apply tinv_emit with (x := Some i); auto; try (intros; discriminate).
+    + intros j b [A|A]; discriminate.
+    + intros j b [A|A] Eb; [|discriminate]. right.
+      simpl in A. destruct c; try discriminate; apply Nat.eqb_eq in A; congruence.
+  - destruct (a_armed a) eqn:E; auto. apply (U8 _ _ _ _ Ua) in E. congruence.
+Qed.
+
+Lemma tinv_segs links fuel w i : TInv links None w -> TInv links None (segs fuel w i).
+Proof.
+  revert w. induction fuel as [|k IH]; intros w H; simpl; [exact H|].
+  pose proof (tinv_seg links w i H) as H'. destruct (seg w i) as [w' go]. simpl in H'.
+  destruct go; [apply IH|]; exact H'.
+Qed.
+
+Lemma tinv_poll links fuel w i : TInv links None w -> TInv links None (poll fuel w i).
+Proof.
+  intros H. unfold poll. pose proof (tinv_resume links w i H) as H'.
+  destruct (resume w i) as [w' go]. simpl in H'. destruct go; [apply tinv_segs|]; exact H'.
+Qed.
+
+Lemma tinv_step links w l : TInv links None w -> TInv links None (step w l).
+Proof.
+  intros H. destruct l as [i|i m|i r|i|i|g|i|i fuel]; simpl.
+  - destruct (get w i) as [a|] eqn:Eg; [|exact H].
+    destruct (a_pc a) eqn:Epc; try exact H.
+    pose proof (t_act _ _ _ H i a Eg) as Ua.
+    apply (tinv_upd_plain links None w i (fun a0 => upd_pc a0 NotStarted) a H Eg eq_refl eq_refl);
+      [| |reflexivity| |reflexivity|reflexivity].
+    + intros Ux. apply UInv_pc; auto; try discriminate; try (rewrite Epc; discriminate).
+      * intros L. destruct (U1 _ _ _ _ Ux L) as [A|[(r & f0 & p0 & A)|A]]; [congruence|congruence|auto].
+      * intros _. apply (U10 _ _ _ _ Ux). rewrite Epc. reflexivity.
+    + unfold blocked. rewrite get_upd_same, Eg. simpl. rewrite Epc.
+      intros [A|[A|[(r & f0 & p0 & A)|A]]]; auto; discriminate.
+    + unfold linkedp. simpl. intros [N|[_ (r & f0 & p0 & E)]]; [left; exact N|discriminate].
+  - apply tinv_req_send. exact H.
+  - apply tinv_req_stop. exact H.
+  - apply tinv_req_kill. exact H.
+  - apply tinv_req_drain. exact H.
+  - destruct H as [h1 h2 h3 h4 h5]. constructor; [exact h1|exact h2|exact h3|exact h4|].
+    intros c a s Eg El. destruct (h5 c a s Eg El) as [r p1 p2]. constructor; [exact r|exact p1|exact p2].
+  - apply tinv_abort. exact H.
+  - apply tinv_poll. exact H.
+Qed.
+
+Lemma tinv_run links ls w : TInv links None w -> TInv links None (run w ls).
+Proof.
+  unfold run. revert w. induction ls as [|l t IH]; simpl; intros w H; [exact H|].
+  apply IH. apply tinv_step. exact H.
+Qed.
+
+Lemma tinv_init cfgs msgs : TInv (map c_link cfgs) None (init cfgs msgs).
+Proof.
+  assert (Hget : forall j a, get (init cfgs msgs) j = Some a -> exists c, a = new_actor c).
+  { intros j a. unfold get, init. simpl. rewrite nth_error_map.
+    destruct (nth_error cfgs j) as [c|]; simpl; [|discriminate]. intros E. injection E as <-. eauto. }
+  constructor.
+  - intros c. unfold link_of, get, init. simpl. apply nth_map_link.
+  - reflexivity.
+  - reflexivity.
+  - intros i a Eg. destruct (Hget i a Eg) as (c & ->).
+    constructor; simpl; auto; try (intros; discriminate); try lia;
+      try (intros [A|A]; discriminate); try (intros _ ks E; injection E as <-; reflexivity).
+  - intros c a s Eg El. destruct (Hget c a Eg) as (c0 & ->).
+    constructor; simpl; try (intros; discriminate).
+    intros _ [N|[_ (r & f & p & E)]]; discriminate.
+Qed.
+
+(* ------------------------------------------------------------------ *)
+(* the two trace oracles accept every trace of the model                *)
+
+Theorem terminal_first_sound cfgs msgs ls :
+  check_C04_terminal_first (map c_link cfgs) (trace_of (run (init cfgs msgs) ls)) = true.
+Proof. exact (t_chk1 _ _ _ (tinv_run _ ls _ (tinv_init cfgs msgs))). Qed.
+
+Theorem sup_first_sound cfgs msgs ls :
+  check_C03_sup_first (map c_link cfgs) (trace_of (run (init cfgs msgs) ls)) = true.
+Proof. exact (t_chk2 _ _ _ (tinv_run _ ls _ (tinv_init cfgs msgs))). Qed.
+
+Theorem terminal_first_sound_dops cfgs msgs rounds fuel order ops :
+  check_C04_terminal_first (map c_link cfgs)
+    (trace_of (run_dops rounds fuel order (init cfgs msgs) ops)) = true.
+Proof. rewrite run_dops_labels. apply terminal_first_sound. Qed.
+
+Theorem sup_first_sound_dops cfgs msgs rounds fuel order ops :
+  check_C03_sup_first (map c_link cfgs)
+    (trace_of (run_dops rounds fuel order (init cfgs msgs) ops)) = true.
+Proof. rewrite run_dops_labels. apply sup_first_sound. Qed.
